@@ -86,6 +86,8 @@ fn run_case(case: &Case) -> CaseResult {
         Err(f) if f.signature == SIG_TREE_CONFLICT => Ok(Obs::trivial().label("excluded-known:tree-conflict-after-rewind")),
         // likewise the known stale-subtree-root finding (C06): the sync round cannot start any more
         Err(f) if f.signature == SIG_STALE_SUBTREE_ROOT => Ok(Obs::trivial().label("excluded-known:stale-subtree-root-after-reorg")),
+        // and the known stale checkpoints left by truncate_to_chain_state (C06): later scans may hit a checkpoint conflict
+        Err(f) if f.signature == SIG_STALE_CHECKPOINT => Ok(Obs::trivial().label("excluded-known:chain-state-truncation-keeps-checkpoints")),
         r => r,
     }
 }
@@ -156,6 +158,8 @@ fn run_case_inner(case: &Case) -> CaseResult {
         .label_if(h.chain.crossed_shard_boundary(), "shard-boundary-crossed")
         .label_if(h.flags.subtree_roots_put > 0, "subtree-roots-put")
         .label_if(h.flags.remined_txs > 0, "wallet-tx-mined-again-after-reorg")
+        .label_if(h.flags.chain_state_truncations > 0, "truncate-to-chain-state")
+        .label_if(h.flags.chain_state_truncations_below_request > 0, "observation:chain-state-truncation-dropped-below-request")
         .label_if(f.early_spend_in_big_out_of_order_batch, "batch>102-above-gap-with-early-spend-of-gap-note")
         .label_if(deep, "chain>100")
         .label_if(st.live_orphan_states > 0, "live-orphan-state")
